@@ -261,6 +261,63 @@ fn run_inner(input: &[u8], rec: &mut Rec) {
                 Err(p) => rec.push_s(&format!("panic.imm_ids.{}", idx), &p),
             }
         }
+        // a traversal that starts further traversals from inside its callbacks (of every nested sequence it meets):
+        // the outer one must still report everything, the inner ones exactly their own sub-tree
+        {
+            struct Count(u64);
+            impl<'i> Visitor<'i> for Count {
+                fn visit_instr(&mut self, _: &'i Instr, _: &'i InstrLocId) {
+                    self.0 += 1;
+                }
+            }
+            struct Nested<'a, 'f> {
+                r: Recorder<'a>,
+                f: &'f LocalFunction,
+                inner: u64,
+            }
+            impl<'a, 'f> Nested<'a, 'f> {
+                fn sub(&mut self, s: InstrSeqId) {
+                    let mut c = Count(0);
+                    dfs_in_order(&mut c, self.f, s);
+                    self.inner += c.0;
+                }
+            }
+            impl<'a, 'f, 'i> Visitor<'i> for Nested<'a, 'f> {
+                fn start_instr_seq(&mut self, _: &'i InstrSeq) {
+                    self.r.tok("S");
+                }
+                fn end_instr_seq(&mut self, _: &'i InstrSeq) {
+                    self.r.tok("E");
+                }
+                fn visit_instr(&mut self, _: &'i Instr, _: &'i InstrLocId) {
+                    self.r.tok("I");
+                }
+                fn visit_block(&mut self, b: &Block) {
+                    self.sub(b.seq);
+                }
+                fn visit_loop(&mut self, b: &Loop) {
+                    self.sub(b.seq);
+                }
+                fn visit_if_else(&mut self, b: &IfElse) {
+                    self.sub(b.consequent);
+                    self.sub(b.alternative);
+                }
+            }
+            let f = m.funcs.get(*fid).kind.unwrap_local();
+            let mut v = Nested { r: Recorder::new(&cx), f, inner: 0 };
+            // (quadratic in the nesting depth: small functions only)
+            let mut size = Count(0);
+            dfs_in_order(&mut size, f, f.entry_block());
+            if size.0 <= 2000 {
+            match guarded(|| dfs_in_order(&mut v, f, f.entry_block())) {
+                Ok(()) => {
+                    rec.push_s(&format!("imm_nested.{}", idx), &v.r.out);
+                    rec.push_n(&format!("imm_nested.inner.{}", idx), v.inner);
+                }
+                Err(p) => rec.push_s(&format!("panic.imm_nested.{}", idx), &p),
+            }
+            }
+        }
         // mutable traversals (the visitors do not change anything)
         {
             let cx2 = Ctx { types: &types, ids: &ids, locals: &locals };
